@@ -27,6 +27,7 @@ REPO = os.environ.get('VERIF_REPO', '/repo')
 PKG = os.path.join(REPO, 'pymeeus')
 OUT_LEAN = os.path.join(ROOT, 'lean', 'Pymeeus', 'Gen', 'Effects', 'Current.lean')
 OUT_JSON = os.path.join(ROOT, '.work', 'effects.json')
+OUT_REPORT = os.path.join(ROOT, 'lean', '.work', 'effects_report.json')
 
 # The in-place mutators the documentation of pymeeus names (receiver = parameter 0).  Constructors
 # (`__init__`) are mutators of the object being constructed.  Everything else that is public must be
@@ -169,6 +170,7 @@ class World(object):
         self.globals = []       # gid -> (module, name)
         self.fieldtypes = {}    # (class|'?', field) -> typeset
         self.fields = {}        # field name -> index
+        self.class_attrs = {}   # (class, name) -> ('scalar',) | ('object', gid, typeset): class-level data
         self.assumptions = set()
         self.giveups = []
         self.load()
@@ -202,13 +204,27 @@ class World(object):
                     for b in n.body:
                         if isinstance(b, ast.FunctionDef):
                             self.add_fn(Fn(mod, n.name, b.name, b))
-                        elif isinstance(b, ast.Assign):
-                            self.giveups.append('%s: class attribute %s ignored' % (n.name, ast.dump(b.targets[0])[:40]))
+                        elif isinstance(b, (ast.Assign, ast.AnnAssign)):
+                            tgts = b.targets if isinstance(b, ast.Assign) else [b.target]
+                            for tg in tgts:
+                                if isinstance(tg, ast.Name):
+                                    self.class_attrs[(n.name, tg.id)] = ('pending', b.value, mod)
+                                else:
+                                    self.giveups.append('%s: class-level statement %s' % (n.name, ast.dump(tg)[:40]))
         # module-level assignments
         for mod, tree in self.modules.items():
             for n in tree.body:
                 if isinstance(n, ast.Assign) and len(n.targets) == 1 and isinstance(n.targets[0], ast.Name):
                     self.mod_globals[mod][n.targets[0].id] = ('pending', n.value)
+        for (cn, an), (k, val, mod) in list(self.class_attrs.items()):
+            tcl = self.literal_type(val, mod) if val is not None else TS
+            if tcl == TS:
+                self.class_attrs[(cn, an)] = ('scalar',)
+            else:
+                gid = len(self.globals)
+                self.globals.append((mod, '%s.%s' % (cn, an)))
+                self.class_attrs[(cn, an)] = ('object', gid, tcl)
+                self.fieldtypes[(cn, an)] = tcl       # also visible through instances
         for mod in self.modules:
             for name, (k, val) in list(self.mod_globals[mod].items()):
                 t = self.literal_type(val, mod)
@@ -442,7 +458,9 @@ class Typer(object):
     # -- helpers
     def grow_local(self, name, t):
         f = self.fn
-        old = f.locals.get(name, frozenset())
+        if name not in f.locals:
+            return                  # only names the function itself binds are locals
+        old = f.locals[name]
         new = widen(old | t)
         if new != old:
             f.locals[name] = new
@@ -599,12 +617,24 @@ class Typer(object):
             rm = self.root_module(e)
             if rm is not None:
                 return TS if rm == 'math' else fs(EXT)
-            if isinstance(e.value, ast.Name):
-                r = self.name_kind(e.value.id)
-                if r and r[0] == 'module':
-                    return TS
-                if r and r[0] == 'class':
-                    return fs(FUN)
+            ns = self.namespace(e.value)
+            if ns is not None:
+                if ns[0] == 'class':
+                    if ns[1] is None:
+                        return TU
+                    if e.attr in w.classes[ns[1]]:
+                        return fs(FUN)
+                    ca = w.class_attrs.get((ns[1], e.attr))
+                    if ca is None:
+                        return TU
+                    return TS if ca[0] == 'scalar' else ca[2]
+                if ns[0] == 'func':
+                    return TS if e.attr in ('__name__', '__doc__') else TU      # a function attribute: anything
+                if ns[0] == 'pmodule':
+                    r2 = w.resolve_name(ns[1], e.attr)
+                    if r2 and r2[0] == 'gobject':
+                        return r2[2]
+                    return TS if (r2 and r2[0] == 'gscalar') else fs(FUN)
             if e.attr in ('__class__',):
                 return fs(EXT)
             if e.attr in ('__name__', '__doc__'):
@@ -697,6 +727,52 @@ class Typer(object):
                 return r[1]
             if r and r[0] == 'extname':
                 return r[1]
+        return None
+
+    def namespace(self, e):
+        """The namespace object an expression denotes, if any: ('class', C) | ('func', Fn or None) |
+        ('pmodule', m) for a module of the package | ('xmodule', m) for an external module."""
+        w = self.w
+        if isinstance(e, ast.Name):
+            f = self.fn
+            while f is not None:
+                if e.id in f.nested:
+                    return ('func', f.nested[e.id])
+                if e.id in f.locals:
+                    return None
+                f = f.parent
+            r = w.resolve_name(self.fn.module, e.id)
+            if r is None:
+                return None
+            if r[0] == 'class':
+                return ('class', r[1])
+            if r[0] == 'func':
+                return ('func', r[1])
+            if r[0] in ('mathfn', 'extname'):
+                return ('func', None)
+            if r[0] == 'module':
+                m = r[1].split('.')[-1]
+                return ('pmodule', m) if (r[1].startswith('pymeeus') and m in w.modules) else ('xmodule', r[1])
+            return None
+        if isinstance(e, ast.Attribute):
+            if e.attr == '__class__':
+                t = self.ty(e.value)
+                cs = [x[1] for x in t if isinstance(x, tuple) and x[0] == 'C']
+                return ('class', cs[0]) if len(cs) == 1 and len(t) == 1 else ('class', None)
+            ns = self.namespace(e.value)
+            if ns is None:
+                return None
+            if ns[0] == 'class' and ns[1] is not None and e.attr in w.classes[ns[1]]:
+                return ('func', w.classes[ns[1]][e.attr])
+            if ns[0] == 'xmodule':
+                return ('xmodule', ns[1] + '.' + e.attr)       # datetime.datetime, ...
+            if ns[0] == 'pmodule':
+                r = w.resolve_name(ns[1], e.attr)
+                if r and r[0] == 'class':
+                    return ('class', r[1])
+                if r and r[0] == 'func':
+                    return ('func', r[1])
+            return None
         return None
 
     def name_kind(self, name):
@@ -847,7 +923,9 @@ class Typer(object):
                 ta = self.ty(call.args[-1])
                 if m in M_EXTEND:
                     ta = elem_type(ta)
-                self.bind_target(call.func.value, nest_of([ta]))
+                recv = call.func.value
+                if not (isinstance(recv, ast.Name) and recv.id not in self.fn.locals):
+                    self.bind_target(recv, nest_of([ta]))     # (never turns a module-level name into a local)
             if plain:
                 if m in M_PURE_SCALAR or m in M_APPEND or m in M_EXTEND or m in ('sort', 'reverse', 'clear', 'remove'):
                     out.add(S)
@@ -1067,6 +1145,7 @@ class Tr(object):
         self.out = []
         self.notes = []
         self.inline_stack = []
+        self.inlined = set()
         self.scope = [({}, fn)]            # inlining scopes: (renaming, Fn)
 
     # -- variables
@@ -1281,10 +1360,32 @@ class Tr(object):
             self.ty_.fn = self.cur()
             if self.ty_.root_module(e) is not None:
                 return None
-            if isinstance(e.value, ast.Name):
-                r = self.name_kind(e.value.id)
-                if r and r[0] == 'class':
-                    return None          # a function object; only meaningful when called
+            self.ty_.fn = self.cur()
+            ns = self.ty_.namespace(e.value)
+            if ns is not None and ns[0] in ('class', 'func', 'pmodule'):
+                # an attribute of a class / function / module object: module-level state
+                if ns[0] == 'class' and ns[1] is not None:
+                    if e.attr in w.classes[ns[1]]:
+                        return None          # a function object; only meaningful when called
+                    ca = w.class_attrs.get((ns[1], e.attr))
+                    if ca is not None and ca[0] == 'scalar':
+                        return None
+                    r = self.newtmp('g')
+                    self.emit('global', r, (ca[1] + 1) if ca is not None else 0)
+                    return r
+                if ns[0] == 'pmodule':
+                    r2 = w.resolve_name(ns[1], e.attr)
+                    if r2 and r2[0] == 'gobject':
+                        r = self.newtmp('g')
+                        self.emit('global', r, r2[1] + 1)
+                        return r
+                    if r2 is not None:
+                        return None
+                if e.attr in ('__name__', '__doc__', '__class__'):
+                    return None
+                r = self.newtmp('g')
+                self.emit('global', r, 0)    # function attribute / unknown class or module attribute
+                return r
             vb = self.expr(e.value)
             if vb is None or is_scalar(t) or e.attr in ('__class__', '__name__', '__doc__'):
                 return None
@@ -1753,6 +1854,7 @@ class Tr(object):
             self.scope.pop()
             self.inline_stack.pop()
         self.notes.append('inlined %s' % g.qual)
+        self.inlined.add(g)
         g.inlined_somewhere = True
         return None
 
@@ -1904,11 +2006,18 @@ class Tr(object):
                     self.emit('load', t, v, 'e')
                     self.assign_to(el, t, te)
         elif isinstance(tgt, ast.Attribute):
+            self.ty_.fn = self.cur()
+            if self.ty_.namespace(tgt.value) is not None:
+                raise Havoc('store to an attribute of a class, function or module object (%s)' % ast.unparse(tgt))
             vb = self.expr(tgt.value)
             if vb is not None:
                 self.emit('store', vb, ('f', self.field(tgt.attr)), self.v(v))
+            elif not self.surely_scalar(tgt.value):
+                raise Havoc('store through an untracked value (%s)' % ast.unparse(tgt))
         elif isinstance(tgt, ast.Subscript):
             vb = self.expr(tgt.value)
+            if vb is None and not self.surely_scalar(tgt.value):
+                raise Havoc('store through an untracked value (%s)' % ast.unparse(tgt))
             if isinstance(tgt.slice, ast.Slice):
                 for x in (tgt.slice.lower, tgt.slice.upper, tgt.slice.step):
                     self.as_index(x)
@@ -1932,6 +2041,14 @@ class Tr(object):
                 self.emit('store', vb, 'e', self.v(v))
         else:
             raise Havoc('assignment target %s' % type(tgt).__name__)
+
+    def surely_scalar(self, e):
+        """a local (non-parameter) variable or literal whose inferred type is scalar: a store through it raises"""
+        if isinstance(e, ast.Constant):
+            return True
+        f = self.cur()
+        return isinstance(e, ast.Name) and e.id in f.locals and e.id not in f.allparams \
+            and is_scalar(f.locals[e.id] or TU)
 
     def for_loop(self, target, it, body_fn):
         """for target in it: body"""
@@ -2119,14 +2236,10 @@ class Tr(object):
             self.truth(self.expr(st.test), self.ty(st.test))
         elif isinstance(st, ast.Delete):
             for tg in st.targets:
-                if isinstance(tg, ast.Subscript):
-                    vb = self.expr(tg.value)
-                    if vb is not None:
-                        self.emit('store', vb, 'e', self.S)
-                elif isinstance(tg, ast.Attribute):
-                    vb = self.expr(tg.value)
-                    if vb is not None:
-                        self.emit('store', vb, ('f', self.field(tg.attr)), self.S)
+                if isinstance(tg, (ast.Subscript, ast.Attribute)):
+                    self.assign_to(tg, None, TS)
+                elif isinstance(tg, ast.Name) and tg.id not in self.cur().locals:
+                    raise Havoc('del of a non-local name')
         elif isinstance(st, ast.FunctionDef):
             return            # nested helper: translated as a function of its own
         elif isinstance(st, ast.Try):
@@ -2448,6 +2561,7 @@ def build():
         f.nparams = tr.nparams
         f.nvars = len(tr.names)
         f.notes = tr.notes
+        f.inlined = tr.inlined
         f.varnames = tr.names
     # helpers that exist only inlined are not functions of the program
     live = list(world.all)
@@ -2569,6 +2683,158 @@ end Pymeeus.Effects.Current
 """
 
 
+SELFTEST_SOURCE = '''
+import math
+TABLE = [1, 2, 3]
+COUNT = 0
+
+
+class K(object):
+    _cache = {}
+    limit = 3
+
+    @staticmethod
+    def class_dict_from_static_method(x):
+        K._cache[x] = 1
+        return K._cache[x]
+
+    def class_dict_through_instance_class(self, x):
+        self.__class__._cache[x] = 1
+
+    def class_dict_through_instance(self, x):
+        self._cache[x] = 1
+
+
+def function_attribute_cache(x):
+    last = function_attribute_cache._last
+    function_attribute_cache._last = x
+    return last
+
+
+def global_rebinding(x):
+    global COUNT
+    COUNT = x
+
+
+def table_append(x):
+    TABLE.append(x)
+
+
+def table_pop(x):
+    return TABLE.pop()
+
+
+def class_dict_update(x):
+    K._cache.update({x: 1})
+
+
+def class_dict_clear(x):
+    K._cache.clear()
+
+
+def table_sort(x):
+    TABLE.sort()
+
+
+def table_setitem(x):
+    TABLE[0] = x
+
+
+def use_setattr(o, x):
+    setattr(o, "a", x)
+
+
+def default_argument(x, acc=[]):
+    acc.append(x)
+    return acc
+
+
+def calls_default_argument(x):
+    return default_argument(x)
+
+
+def class_attribute_rebinding(x):
+    K.limit = x
+
+
+def module_attribute_store(x):
+    math.tau2 = x
+
+
+def del_table_item(x):
+    del TABLE[0]
+
+
+def ok_reads(x):
+    return K._cache.get(x), K.limit, TABLE[0], function_attribute_cache._last
+
+
+def ok_local_copy(x):
+    t = list(TABLE)
+    t.append(x)
+    t.sort()
+    return t
+'''
+
+
+def selftest():
+    """The translator + analysis on the shapes of hidden module-level state: every function of the synthetic
+    module must be rejected, except the ok_* ones.  -> list of (name, expected, got)"""
+    import tempfile
+    global REPO, PKG
+    save = (REPO, PKG)
+    d = tempfile.mkdtemp(prefix='py2effects-selftest-')
+    try:
+        os.makedirs(os.path.join(d, 'pymeeus'))
+        open(os.path.join(d, 'pymeeus', 'hidden.py'), 'w').write(SELFTEST_SOURCE)
+        REPO, PKG = d, os.path.join(d, 'pymeeus')
+        world, live, sums, rejected, nfields = build()
+        out = []
+        for f in live:
+            expected_ok = f.name.startswith('ok_')
+            got_ok = f.qual not in rejected
+            out.append((f.qual, expected_ok, got_ok))
+        return out
+    finally:
+        REPO, PKG = save
+        import shutil
+        shutil.rmtree(d, ignore_errors=True)
+
+
+def spec_name(f):
+    """'pymeeus/Epoch.py:Epoch.is_leap' (the form of the harness FUNCTIONS specs)"""
+    q = f.qual if f.cls and f.parent is None else f.qual.split('.', 1)[1] if not f.cls else f.qual
+    if f.cls and f.parent is not None:
+        q = f.qual
+    return 'pymeeus/%s.py:%s' % (f.module, q)
+
+
+def write_report(world, live, rejected):
+    """lean/.work/effects_report.json: per function its kind, the call graph as the analysis resolves it
+    (over-approximated: every class a dynamic call may dispatch to), and whether the analysis accepts it."""
+    live_set = set(live)
+    inliners = {}
+    for f in world.all:
+        for g in getattr(f, 'inlined', ()):
+            inliners.setdefault(g, []).append(f)
+    funs = []
+    for f in world.all:
+        callees = set()
+        calls_in(f.body, callees)
+        callees |= set(getattr(f, 'inlined', ()))
+        if f in live_set:
+            kind, accepted = f.kind, f.qual not in rejected
+        else:       # a private helper that exists only inlined into its callers
+            kind = 'helper'
+            accepted = all(g.qual not in rejected for g in inliners.get(f, []))
+        funs.append({'name': spec_name(f), 'qual': f.qual, 'kind': kind, 'accepted': accepted,
+                     'reason': rejected.get(f.qual), 'inlined_only': f not in live_set,
+                     'callees': sorted(spec_name(g) for g in callees)})
+    os.makedirs(os.path.dirname(OUT_REPORT), exist_ok=True)
+    with open(OUT_REPORT, 'w') as fh:
+        json.dump({'repo': REPO, 'translator_failed': None, 'functions': funs}, fh, indent=1)
+
+
 def source_stamp():
     import hashlib
     h = hashlib.sha256()
@@ -2585,12 +2851,19 @@ def source_stamp():
 
 
 def main():
+    if '--selftest' in sys.argv:
+        res = selftest()
+        bad = [r for r in res if r[1] != r[2]]
+        for r in res:
+            print('%-55s expected %-8s got %-8s %s' % (r[0], 'accept' if r[1] else 'reject', 'accept' if r[2] else 'reject',
+                                                        '' if r[1] == r[2] else '<-- WRONG'))
+        return 1 if bad else 0
     d = os.path.dirname(OUT_LEAN)
     stamp_file = os.path.join(ROOT, '.work', 'effects.stamp')
     stamp = source_stamp()
     plain = not any(a in sys.argv for a in ('--report', '--dump', '--force'))
     if plain and os.path.exists(stamp_file) and open(stamp_file).read() == stamp \
-            and os.path.exists(OUT_LEAN) and os.path.exists(OUT_JSON):
+            and os.path.exists(OUT_LEAN) and os.path.exists(OUT_JSON) and os.path.exists(OUT_REPORT):
         return 0            # source and translator unchanged since the last run
     try:
         return main_()
@@ -2607,6 +2880,8 @@ def main():
         json.dump({'failed': why, 'trace': traceback.format_exc(), 'functions': [], 'rejected': {'translator': why},
                    'giveups': [], 'assumptions': [], 'guards': {'guarded': [], 'unguarded': []}, 'globals': []},
                   open(OUT_JSON, 'w'), indent=1)
+        os.makedirs(os.path.dirname(OUT_REPORT), exist_ok=True)
+        json.dump({'repo': REPO, 'translator_failed': why, 'functions': []}, open(OUT_REPORT, 'w'), indent=1)
         print('py2effects: FAILED on the current source: ' + why)
         with open(stamp_file, 'w') as fh:
             fh.write(stamp)
@@ -2639,6 +2914,7 @@ def main_():
     os.makedirs(os.path.dirname(OUT_JSON), exist_ok=True)
     with open(OUT_JSON, 'w') as fh:
         json.dump(info, fh, indent=1, default=str)
+    write_report(world, live, rejected)
     if '--dump' in sys.argv:
         q = sys.argv[sys.argv.index('--dump') + 1]
         for f in live:
